@@ -76,6 +76,8 @@ ParCSRMatrix* read_par_mm(const char *fname)
         if (n_items_read == EOF) printf("EOF reading code\n");
         row--;
         col--;
+        // a diagonal entry of a symmetric file must not be mirrored onto itself
+        bool mirror = symmetric && (row != col);
         if (row >= A->partition->first_local_row && row <= A->partition->last_local_row)
         {
             row_local = true;
@@ -84,7 +86,7 @@ ParCSRMatrix* read_par_mm(const char *fname)
         else
         {
             row_local = false;
-            if (!symmetric)
+            if (!mirror)
                 continue;
         }
         if (col >= A->partition->first_local_col && col <= A->partition->last_local_col)
@@ -111,7 +113,7 @@ ParCSRMatrix* read_par_mm(const char *fname)
             }
         }
 
-        if (symmetric)
+        if (mirror)
         {
             if (col_local)
             {
